@@ -3,7 +3,7 @@ import hmac as pyhmac, hashlib
 from props.filegen import *
 
 THEOREMS_A = ["C08_tag_is_rfc2104_hmac", "C08_tag_length", "C08_compare_all_bytes", "C08_unknown_hash_has_no_tag"]
-THEOREMS_B = []  # file-level tag theorems are added with FileProofs
+THEOREMS_B = ["C08_file_tag_is_hmac_of_body", "C08_tag_field_zero_filled"]
 PY = {0: "sha1", 1: "md5", 2: "sha256"}
 HL = {0: 20, 1: 16, 2: 32}
 
@@ -53,7 +53,7 @@ def make_oracle(ck):
 
 
 def run(ck):
-    ck.prove("Properties_C08", THEOREMS_A + THEOREMS_B)
+    ck.prove(["Properties_C08", "Properties_C08b"], THEOREMS_A + THEOREMS_B)
     exe = small_driver(ck)
     differential(ck, exe, gen_cases(ck), make_oracle(ck), env=small_env(ck))
     # tag field of real encrypted files
